@@ -300,6 +300,35 @@ Fixpoint is_prefix (a b : list Z) : bool :=
 Fixpoint is_infix (a b : list Z) : bool :=
   is_prefix a b || match b with [] => false | _ :: b' => is_infix a b' end.
 
+(* ---- the body map of an application/json request, derived from the body by the proved parser ----
+   GetMapBody(key) = the member's value: the DENOTED bytes of a string member (escapes resolved), the raw text of any other member.
+   The model no longer takes the harness's read-back of GetMapBody for JSON bodies: it computes the map itself and the read-back
+   must agree with it (strings byte for byte; other members as JSON values, since their raw text is only ever parsed). *)
+Definition body_map (ms : list (list Z * json)) : kv :=
+  map (fun m => (fst m, match snd m with JStr x => x | j => json_print j end)) ms.
+
+Fixpoint key_universe (fuel : nat) (fs : list fdesc) : list (list Z) :=
+  match fuel with
+  | O => []
+  | S n => flat_map (fun f => f_name f :: map a_key (f_anns f) ++
+                              match f_ty f with
+                              | TStruct gs => key_universe n gs
+                              | TList (TStruct gs) => key_universe n gs
+                              | _ => []
+                              end) fs
+  end.
+
+Definition bm_value_agrees (member : option json) (rv : list Z) : bool :=
+  match member with
+  | None => negb (nonempty rv)
+  | Some (JStr x) => zlist_eqb x rv
+  | Some j => match json_parse rv with Some j' => json_eqb j j' | None => false end
+  end.
+
+(* first key of the universe on which GetMapBody's answer is not the body member *)
+Definition bodymap_mismatch (ms : list (list Z * json)) (readback : kv) (keys : list (list Z)) : option (list Z) :=
+  find (fun k => negb (bm_value_agrees (find_member k ms) (assoc k readback))) keys.
+
 Definition check_1701 (fs : list field) : verdict :=
   match fs with
   | FZ bits :: FZ impl :: r =>
@@ -308,12 +337,17 @@ Definition check_1701 (fs : list field) : verdict :=
       if (nv <? 0) || (nv >? 1000000) then VBad 99 [] else
       match parse_view (Z.to_nat nv) r1 (mkReq [] [] [] [] [] [] [] []) with
       | Some (rq0, [FB raw; FB uri; FB body; FZ ec; FB outb]) =>
-        let rq := mkReq (rq_query rq0) (rq_path rq0) (rq_header rq0) (rq_cookie rq0) (rq_form rq0) (rq_bodymap rq0) raw uri in
         let o := opts_of bits in
         let jb := match body with [] => Some None | _ => match json_parse body with Some j => Some (Some j) | None => None end end in
         match jb with
         | None => VSkip     (* the body is not JSON for the proved parser: outside the domain *)
         | Some jbody =>
+          let members := match jbody with Some (JObj ms) => Some ms | _ => None end in
+          let bm := match members with Some ms => body_map ms | None => rq_bodymap rq0 end in
+          let rq := mkReq (rq_query rq0) (rq_path rq0) (rq_header rq0) (rq_cookie rq0) (rq_form rq0) bm raw uri in
+          match (match members with Some ms => bodymap_mismatch ms (rq_bodymap rq0) (key_universe 8 flds) | None => None end) with
+          | Some k => VBad 7 [FB k; FB (assoc k bm)]      (* GetMapBody(k) is not the value of body member k *)
+          | None =>
           (* finding 1715 (native trie_get read past the index) is fixed in /repo by 0d2d3ac: a panic is a violation *)
           if ec =? 4 then VBad 4 [] else
           (* SkipGo's model first: it bounds every declared length by the remaining input before converting it to a nat
@@ -333,6 +367,7 @@ Definition check_1701 (fs : list field) : verdict :=
             then VKnown FINDING_NBS_IGNORED_ERROR     (* together with 1714: api.body consulted last lets the no_body_struct source win *)
             else if a =? 1 then VDrift 1
             else VBad 1 (hres_detail spec)
+          end
           end
         end
       | _ => VBad 98 []
